@@ -1752,6 +1752,11 @@ impl DnsOutgoing {
         self.id = id;
     }
 
+    /// A unicast message keeps its `id` on the wire, a multicast one uses 0.
+    pub fn set_multicast(&mut self, multicast: bool) {
+        self.multicast = multicast;
+    }
+
     pub const fn is_query(&self) -> bool {
         (self.flags & FLAGS_QR_MASK) == FLAGS_QR_QUERY
     }
